@@ -14,10 +14,28 @@ From Verif Require Import Lib.Base Lib.Dyadic C07.Model C07.Spec C07.Proofs.
 Import ListNotations.
 Open Scope Z_scope.
 
-Inductive num := F (bits : N) | I (z : Z).
+(** [NoNum]: a field the data point does not report (Min/Max of a NoMinMax stream, Sum of an
+    instrument kind whose sum is not collected); the harness has checked directly that it is absent
+    (Extrema undefined / Sum = 0), the judge then skips exactly that field. *)
+Inductive num := F (bits : N) | I (z : Z) | NoNum.
 
 Definition num_fx (x : num) : option Z :=
-  match x with F b => fx64 b | I z => Some (fx_int z) end.
+  match x with F b => fx64 b | I z => Some (fx_int z) | NoNum => None end.
+
+Definition is_nonum (x : num) : bool := match x with NoNum => true | _ => false end.
+
+(** Boundaries may be infinite: +-Inf is mapped beyond every finite float64 (|v| < 2^2098). *)
+Definition bound_fx (x : num) : option Z :=
+  match x with
+  | F b => if (f64_exp b =? 2047) && (f64_man b =? 0)
+           then Some (if f64_sign b then - Z.shiftl 1 2200 else Z.shiftl 1 2200)
+           else fx64 b
+  | _ => num_fx x
+  end.
+Definition zmin_l (l : list Z) : Z := match l with [] => 0 | x :: r => fold_right Z.min x r end.
+Definition zmax_l (l : list Z) : Z := match l with [] => 0 | x :: r => fold_right Z.max x r end.
+(** Reported extremum, or (when not reported) the true one so that the clause is vacuous. *)
+Definition ext_fx (x : num) (dflt : Z) : option Z := if is_nonum x then Some dflt else num_fx x.
 
 Fixpoint all_some {A} (l : list (option A)) : option (list A) :=
   match l with
@@ -27,6 +45,7 @@ Fixpoint all_some {A} (l : list (option A)) : option (list A) :=
   end.
 
 Definition nums_fx (l : list num) : option (list Z) := all_some (map num_fx l).
+Definition bounds_fx (l : list num) : option (list Z) := all_some (map bound_fx l).
 
 (** Observations. *)
 Record hobs := { ho_counts : list N; ho_count : N; ho_min : num; ho_max : num; ho_sum : num }.
@@ -53,14 +72,17 @@ Definition sum_exact (isint : bool) (vs : list Z) : bool :=
   if isint then zabs_sum vs <? Z.shiftl 1 (63 + 1074)
   else forallb (fun v => Z.shiftl (Z.shiftr v 1064) 1064 =? v) vs && (zabs_sum vs <? Z.shiftl 1 (43 + 1074)).
 
-Definition is_int (x : num) : bool := match x with I _ => true | F _ => false end.
+Definition is_int (x : num) : bool := match x with I _ => true | _ => false end.
 Definition vals_int (l : list num) : bool := match l with x :: _ => is_int x | [] => false end.
 
 (** ** Explicit histogram *)
 Definition check_explicit (bounds vals : list num) (o : hobs) : list N :=
-  match nums_fx bounds, nums_fx vals, num_fx (ho_min o), num_fx (ho_max o) with
-  | Some bz, Some vz, Some omin, Some omax =>
-      let ck := sum_exact (vals_int vals) vz in
+  match bounds_fx bounds, nums_fx vals with
+  | Some bz, Some vz =>
+  match ext_fx (ho_min o) (zmin_l vz), ext_fx (ho_max o) (zmax_l vz) with
+  | Some omin, Some omax =>
+      let nomm := is_nonum (ho_min o) in
+      let ck := sum_exact (vals_int vals) vz && negb (is_nonum (ho_sum o)) in
       let osum := match num_fx (ho_sum o) with Some s => s | None => 0 end in
       let sum_known := match num_fx (ho_sum o) with Some _ => true | None => false end in
       let p := {| hp_counts := ho_counts o; hp_count := ho_count o; hp_min := omin; hp_max := omax;
@@ -68,7 +90,7 @@ Definition check_explicit (bounds vals : list num) (o : hobs) : list N :=
       flag (match hist_run bz vz with
             | Some h =>
                 nlist_eqb (h_counts h) (ho_counts o) && (h_count h =? ho_count o)%N &&
-                (h_min h =? omin) && (h_max h =? omax) &&
+                (nomm || ((h_min h =? omin) && (h_max h =? omax))) &&
                 (negb ck || (sum_known && (h_total h =? osum)))
             | None => false
             end) V_MISMATCH ++
@@ -76,7 +98,9 @@ Definition check_explicit (bounds vals : list num) (o : hobs) : list N :=
       flag (match hist_run bz vz with
             | Some h => hist_point_okb true bz vz (hist_to_point h)
             | None => false end) V_MODELSPEC
-  | _, _, _, _ => [V_MISMATCH]
+  | _, _ => [V_MISMATCH]
+  end
+  | _, _ => [V_MISMATCH]
   end.
 
 (** ** Exponential histogram
@@ -97,12 +121,16 @@ Definition fits_b (ms : Z) (vz : list Z) : bool :=
   span_fits ms (map (fun m => exact_bin (-10) m U) (negl vz)).
 
 Definition check_expo (ms mxs : Z) (vals : list num) (prev : option Z) (o : eobs) : list N :=
-  match nums_fx vals, num_fx (eo_min o), num_fx (eo_max o) with
-  | Some vz, Some omin, Some omax =>
+  match nums_fx vals with
+  | None => [V_MISMATCH]
+  | Some vz =>
+  match ext_fx (eo_min o) (zmin_l vz), ext_fx (eo_max o) (zmax_l vz) with
+  | Some omin, Some omax =>
       match expo_table mxs vz with
       | None => [V_MISMATCH]      (* enclosure inconclusive even at 320 bits: cannot judge *)
       | Some t =>
-          let ck := sum_exact (vals_int vals) vz in
+          let nomm := is_nonum (eo_min o) in
+          let ck := sum_exact (vals_int vals) vz && negb (is_nonum (eo_sum o)) in
           let osum := match num_fx (eo_sum o) with Some s => s | None => 0 end in
           let sum_known := match num_fx (eo_sum o) with Some _ => true | None => false end in
           let st := expo_run (gb_of t) U ms mxs vz in
@@ -124,7 +152,7 @@ Definition check_expo (ms mxs : Z) (vals : list num) (prev : option Z) (o : eobs
                 (b_start (e_pos st) =? eo_pos_off o) && nlist_eqb (b_counts (e_pos st)) (eo_pos o) &&
                 (b_start (e_neg st) =? eo_neg_off o) && nlist_eqb (b_counts (e_neg st)) (eo_neg o) &&
                 (e_zero st =? eo_zero o)%N && (e_count st =? eo_count o)%N &&
-                option_eqb Z.eqb (e_min st) (Some omin) && option_eqb Z.eqb (e_max st) (Some omax) &&
+                (nomm || (option_eqb Z.eqb (e_min st) (Some omin) && option_eqb Z.eqb (e_max st) (Some omax))) &&
                 (negb ck || (sum_known && (e_sum st =? osum)))) V_MISMATCH ++
           flag other_clauses V_SPECFAIL ++
           flag (count_clause && placed_clause) (if fits then V_SPECFAIL else V_KNOWN 1) ++
@@ -134,7 +162,8 @@ Definition check_expo (ms mxs : Z) (vals : list num) (prev : option Z) (o : eobs
                  tally_ok t (e_scale st) (negl vz) (b_start (e_neg st)) (b_counts (e_neg st)) &&
                  (blen (e_pos st) <=? ms) && (blen (e_neg st) <=? ms))) V_MODELSPEC
       end
-  | _, _, _ => [V_MISMATCH]
+  | _, _ => [V_MISMATCH]
+  end
   end.
 
 (** ** Single-value bucket probes (one value recorded at MaxScale = scale: Offset = bin) *)
@@ -193,7 +222,7 @@ Definition check_bigint (v : Z) (bound : num) (counts : list N) (s bin : Z) : li
 Definition check_case (c : case) : list N :=
   match c with
   | CBoundsValid bounds accepted =>
-      match nums_fx bounds with
+      match bounds_fx bounds with
       | Some bz => flag (Bool.eqb (bounds_valid bz) accepted) V_MISMATCH ++
                    flag (Bool.eqb (strictly_increasing bz) accepted) V_SPECFAIL
       | None => [V_MISMATCH]
